@@ -26,6 +26,7 @@ var (
 	zzErrCommit   = errors.New("zz: commit failed")
 	zzErrRollback = errors.New("zz: rollback failed")
 	zzErrCallback = errors.New("zz: callback failed")
+	zzErrBusy     = errors.New("database is locked (5) (SQLITE_BUSY)")
 )
 
 const zzMaxStmts = 4
@@ -163,7 +164,9 @@ func zzFaultedTransaction(nst int) {
 	// which error: its own, or a context error that comes from some other,
 	// unrelated context (a per-call timeout inside the callback) while the
 	// transaction's own context is alive
-	errKind := zzverif.Choice("callback error kind", 3)
+	// or a transient-looking driver error ("database is locked") that would not
+	// come again if the callback were run a second time
+	errKind := zzverif.Choice("callback error kind", 4)
 	var ignore [zzMaxStmts]bool
 	for k := 0; k < n; k++ {
 		ignore[k] = zzverif.Bool("callback ignores statement error")
@@ -178,10 +181,13 @@ func zzFaultedTransaction(nst int) {
 	raised := false
 	cbNil := false
 	var okWrites []int64
+	calls := 0
 	func() {
 		defer func() { panicked = recover() }()
 		ret = zzTransact(which, db, ctx, func(tx *sql.Tx) error {
 			ran = true
+			calls++
+			okWrites = nil // what counts is the run whose outcome the wrapper reports
 			for j := 0; j <= n; j++ {
 				if cancelAt == j {
 					cancel()
@@ -208,6 +214,12 @@ func zzFaultedTransaction(nst int) {
 					return context.Canceled
 				case 2:
 					return context.DeadlineExceeded
+				case 3:
+					if calls == 1 {
+						return zzErrBusy
+					}
+					cbNil = true
+					return nil
 				}
 				return zzErrCallback
 			}
@@ -247,6 +259,10 @@ func zzFaultedTransaction(nst int) {
 	}
 	if st.failBegin {
 		zzverif.Assert(!ran, "c14-callback-ran-without-transaction")
+	}
+	if calls > 1 {
+		// a wrapper may retry, but only from a clean slate: one rollback and one begin per extra run
+		zzverif.Assert(st.begins >= calls && st.rollbacks >= calls-1, "c14-callback-rerun-inside-the-same-transaction")
 	}
 	zzverif.Assert(!st.inTx, "c14-transaction-left-open")
 	zzverif.Assert(len(st.pending) == 0, "c14-pending-writes-left-behind")
